@@ -1,6 +1,6 @@
 """Contracts for dashlive/mpeg/mp4.py (C04 reduced scope; C02 tfdt clause): per box class, encode then parse is the
-identity on the fields and every written value fits its field.  Loop-free FullBox classes: mfhd, mehd, trex, tfdt,
-tfhd; plus TrackFragmentDecodeTimeBox.__setattr__ (the 32 -> 64 bit switch)."""
+identity on the fields and every written value fits its field.  Loop-free classes: mfhd, mehd, trex, tfdt, tfhd, trun
+header, btrt, pasp; plus TrackFragmentDecodeTimeBox.__setattr__ (the 32 -> 64 bit switch)."""
 import z3
 from pyvc.vals import *          # noqa: F401,F403
 from pyvc.contract import Contract, Loop, Lemma, Group
@@ -70,6 +70,36 @@ def box_contract(cls, fields, requires, version_values=(0, 1), extra_env=None, r
 
 
 u32 = lambda f: (f'u32_{f}', f'0 <= self.{f} and self.{f} < {U32}')
+
+
+def atom_contract(cls, fields, size):
+    """plain Mp4Atom subclass (no version/flags): <cls>.encode_fields then <cls>.parse"""
+    def env(w):
+        o = Obj(cls, {f: z3.Int(f) for f in fields})
+        o.f['options'] = Obj('Options', {'debug': False, 'log': Opaque('log')})
+        return {'self': o, 'dest': Trace()}
+
+    def sequel_env(eng, env_after, value):
+        t = env_after['dest']
+        t.cursor, t.reading = 0, True
+        opts = Obj('Options', {'debug': False, 'log': Opaque('log')})
+        return {'clz': Opaque('class:' + cls), 'src': t, 'parent': Obj('Mp4Atom', {}), 'self': env_after['self'], 'dest': t,
+                'options': opts, 'kwargs': {'initial_data': {}}}
+    return Contract(
+        key=f'{MP4}:{cls}.encode_fields', props=['C04'], env=env,
+        requires=[u32(f) for f in fields],
+        models={'clz.classname': lambda eng, e, a, kw: Opaque('name'),
+                'Mp4Atom.parse': lambda eng, e, a, kw: kw['initial_data']},
+        sequel={'qual': f'{cls}.parse', 'env': sequel_env},
+        ensures=[('roundtrip', ' and '.join(f"result['{f}'] == old(self.{f})" for f in fields)),
+                 ('consumed', 'consumed(dest)'), ('encoded_size', f'nbytes(dest) == {size}')],
+        canaries=[f"result['{fields[0]}'] == 0"],
+        witness_terms=lambda w: (lambda ev: {k: ev(z3.Int(k)) for k in fields}),
+    )
+
+
+BTRT = atom_contract('BitRateBox', ['bufferSizeDB', 'maxBitrate', 'avgBitrate'], 12)
+PASP = atom_contract('PixelAspectRatioBox', ['h_spacing', 'v_spacing'], 8)
 
 MFHD = box_contract('MovieFragmentHeaderBox', [('sequence_number', 'int')], [u32('sequence_number')],
                     size='8')
@@ -268,7 +298,7 @@ FIND_FIRST = Contract(key=f'{MP4}:SampleAuxiliaryInformationOffsetsBox.find_firs
 
 GROUP = Group(
     name='mp4', world=world,
-    contracts=[MFHD, MEHD, TREX, TFDT, TFHD, TRUN, TFDT_SETATTR, TRUN_POST_ENCODE] + SAIO + [FIND_FIRST] + INLINE,
+    contracts=[MFHD, MEHD, TREX, TFDT, TFHD, TRUN, BTRT, PASP, TFDT_SETATTR, TRUN_POST_ENCODE] + SAIO + [FIND_FIRST] + INLINE,
     assumptions=[
         'C04: the repository helpers FieldWriter.write / FieldReader.read (dashlive/utils/fio) and struct.pack / unpack are '
         'modelled (pyvc/models/trace.py) for the codes B H I Q i q, 3I and fixed-size byte fields; they are not themselves verified',
